@@ -609,6 +609,21 @@ func Select(hasDefault bool, chans ...any) int {
 	return i
 }
 
+// OrderChoice returns an explorer-chosen number in [0,n): the order in which an unordered
+// collection is visited (0 is the default; any other answer costs one "order" deviation).
+func OrderChoice(n int) int {
+	s := S
+	if s == nil || n <= 1 {
+		return 0
+	}
+	k := s.ch.Choose(n, kindOrder, 1)
+	if s.ch.NeedKey() {
+		s.ch.SetKey(mix(s.StateKey(), uint64(k), 4))
+	}
+	TouchLocal(17, uint64(k))
+	return k
+}
+
 // Chose must be called by harness code right after it consumed a tape choice of
 // its own (fault injection etc.) while a scheduler is active, so that the
 // choice enters the canonical state key.
